@@ -213,7 +213,7 @@ def _shard(ctx, shard, nshards):
 
     def factory():
         @seed(runner.hseed(ctx, 4))
-        @runner.hsettings(ctx.scale(1500, 12000))
+        @runner.hsettings(ctx.scale(1500, 40000))
         @given(tapes(200))
         def test(data):
             mx, my, extra = build_case(data)
